@@ -1322,6 +1322,14 @@ def algorithm_lookup(out: OutputBuffer, alg_names: str) -> int:
     algorithm_names = alg_names.split(",")
     adb = SSH2_KexDB.get_db()
 
+    # GSS key exchange names end in a base64 field that varies (i.e.: 'gss-gex-sha1-vz8J1E9PzLr8b1K+0remTg=='); the database files them under a wildcard name ('gss-gex-sha1-*'), which is what output_algorithm() looks up as well.
+    def _db_name(name: str) -> str:
+        if name.startswith('gss-') and name.rindex('-') > 3:
+            return "%s-*" % name[0:name.rindex('-')]
+        return name
+
+    lookup_names = [_db_name(alg_name) for alg_name in algorithm_names]
+
     # Use nested dictionary comprehension to iterate an outer dictionary where
     # each key is an alg type that consists of a value (which is itself a
     # dictionary) of alg names. Filter the alg names against the user supplied
@@ -1330,7 +1338,7 @@ def algorithm_lookup(out: OutputBuffer, alg_names: str) -> int:
         outer_k: {
             inner_k
             for (inner_k, inner_v) in outer_v.items()
-            if inner_k in algorithm_names
+            if inner_k in lookup_names
         }
         for (outer_k, outer_v) in adb.items()
     }
@@ -1352,7 +1360,7 @@ def algorithm_lookup(out: OutputBuffer, alg_names: str) -> int:
     algorithms_not_found = [
         alg_name
         for alg_name in algorithm_names
-        if alg_name not in algorithms_dict_flattened
+        if _db_name(alg_name) not in algorithms_dict_flattened
     ]
 
     similar_algorithms = [
